@@ -187,3 +187,78 @@ Theorem substrate_dec_enc : forall blake2b512 valid_pub curve fmt pub s, hash_ok
   substrate_decode valid_pub (AddrInst.ss58_dec blake2b512) curve fmt s = Ok pub.
 Proof. intros b v c f p s [H1 H2]. exact (AddrInst.substrate_rt b v H1 H2 c f p s). Qed.
 Print Assumptions substrate_dec_enc.
+
+(* ---- Bech32 / SegWit / CashAddr-based formats, on the codec models of property C10 (no codec
+        hypothesis: the round trips of Bech32, SegWit and CashAddr strings are theorems there).
+        [hrp_wf] is the C10 condition on an encoder HRP: non-empty, printable ASCII, no upper case. *)
+From BU Require Model.Bech32.
+From BU Require Lemmas.Bech32 Lemmas.AddrInstBech32.
+Notation hrp_wf := Lemmas.Bech32.hrp_enc_ok.
+
+Theorem atom_dec_enc : forall sha256 ripemd160 hrp pub s, hash_ok ripemd160 20 -> hrp_wf hrp ->
+  atom_encode sha256 ripemd160 Bech32.bech32_encode hrp pub = Ok s ->
+  atom_decode Bech32.bech32_decode hrp s = Ok (hash160 sha256 ripemd160 pub).
+Proof. intros sh r h p s [R1 R2]. exact (AddrInstBech32.atom_rt sh r R1 R2 h p s). Qed.
+Print Assumptions atom_dec_enc.
+
+Theorem avax_dec_enc : forall sha256 ripemd160 prefix hrp pub s, hash_ok ripemd160 20 -> hrp_wf hrp ->
+  avax_encode sha256 ripemd160 Bech32.bech32_encode prefix hrp pub = Ok s ->
+  avax_decode Bech32.bech32_decode prefix hrp s = Ok (hash160 sha256 ripemd160 pub).
+Proof. intros sh r pr h p s [R1 R2]. exact (AddrInstBech32.avax_rt sh r R1 R2 pr h p s). Qed.
+Print Assumptions avax_dec_enc.
+
+Theorem egld_dec_enc : forall valid_pub pub s, bytes_ok pub ->
+  egld_encode Bech32.bech32_encode pub = Ok s ->
+  length pub = (ed25519_compr_len - 1)%nat -> valid_pub 2 pub = true ->
+  egld_decode valid_pub Bech32.bech32_decode s = Ok pub.
+Proof. exact AddrInstBech32.egld_rt. Qed.
+Print Assumptions egld_dec_enc.
+
+Theorem zil_dec_enc : forall sha256 pub s, hash_ok sha256 32 ->
+  zil_encode sha256 Bech32.bech32_encode pub = Ok s ->
+  zil_decode Bech32.bech32_decode s = Ok (take_last zil_hash_len (sha256 pub)).
+Proof. intros sh p s [S1 S2]. exact (AddrInstBech32.zil_rt sh (fun x => x) S1 S2 p s). Qed.
+Print Assumptions zil_dec_enc.
+
+(* Injective / OKEx / Harmony One: Bech32 of the 20 Ethereum address bytes *)
+Theorem inj_dec_enc : forall keccak256 pub_u s, hash_ok keccak256 32 ->
+  ethb32_encode keccak256 Bech32.bech32_encode inj_hrp pub_u = Ok s ->
+  inj_decode Bech32.bech32_decode s = Ok (skipn 12 (keccak256 (tl pub_u))).
+Proof. intros k p s [K1 K2]. exact (AddrInstBech32.inj_rt k (fun x => x) K1 K2 p s). Qed.
+Print Assumptions inj_dec_enc.
+
+Theorem okex_one_dec_enc : forall keccak256 hrp pub_u s, hash_ok keccak256 32 -> In hrp [okex_hrp; one_hrp] ->
+  ethb32_encode keccak256 Bech32.bech32_encode hrp pub_u = Ok s ->
+  ethb32_decode keccak256 Bech32.bech32_decode hrp s = Ok (skipn 12 (keccak256 (tl pub_u))).
+Proof. intros k h p s [K1 K2]. exact (AddrInstBech32.ethb32_rt k (fun x => x) K1 K2 h p s). Qed.
+Print Assumptions okex_one_dec_enc.
+
+Theorem p2wpkh_dec_enc : forall sha256 ripemd160 hrp pub s, hash_ok ripemd160 20 -> hrp_wf hrp ->
+  p2wpkh_encode sha256 ripemd160 Bech32.segwit_encode hrp pub = Ok s ->
+  p2wpkh_decode Bech32.segwit_decode hrp s = Ok (hash160 sha256 ripemd160 pub).
+Proof. intros sh r h p s [R1 R2]. exact (AddrInstBech32.p2wpkh_rt sh r R1 R2 h p s). Qed.
+Print Assumptions p2wpkh_dec_enc.
+
+(* P2TR: for any 32-byte output key (see taproot_fixed_width for the key itself) *)
+Theorem p2tr_dec_enc : forall tweak hrp pub s, hrp_wf hrp -> bytes_ok (tweak pub) ->
+  length (tweak pub) = (secp_compr_len - 1)%nat ->
+  p2tr_encode Bech32.segwit_encode tweak hrp pub = Ok s ->
+  p2tr_decode Bech32.segwit_decode hrp s = Ok (tweak pub).
+Proof. exact AddrInstBech32.p2tr_rt. Qed.
+Print Assumptions p2tr_dec_enc.
+
+Theorem bch_p2pkh_dec_enc : forall sha256 ripemd160 hrp b pub s, hash_ok ripemd160 20 -> hrp_wf hrp -> b < 256 ->
+  bch_p2pkh_encode sha256 ripemd160 Bech32.cash_encode hrp [b] pub = Ok s ->
+  bch_decode Bech32.cash_decode hrp [b] s = Ok (hash160 sha256 ripemd160 pub).
+Proof. intros sh r h b p s [R1 R2]. exact (AddrInstBech32.bch_p2pkh_rt sh r R1 R2 h b p s). Qed.
+Print Assumptions bch_p2pkh_dec_enc.
+
+Theorem bch_p2sh_dec_enc : forall sha256 ripemd160 hrp b pub s, hash_ok ripemd160 20 -> hrp_wf hrp -> b < 256 ->
+  bch_p2sh_encode sha256 ripemd160 Bech32.cash_encode hrp [b] pub = Ok s ->
+  bch_decode Bech32.cash_decode hrp [b] s = Ok (p2sh_script_hash sha256 ripemd160 pub).
+Proof. intros sh r h b p s [R1 R2]. exact (AddrInstBech32.bch_p2sh_rt sh r R1 R2 h b p s). Qed.
+Print Assumptions bch_p2sh_dec_enc.
+
+Example hrp_wf_example : hrp_wf [116; 98; 49].    (* "tb1": an HRP may contain the separator character *)
+Proof. split; [discriminate|]. repeat constructor; try (apply N.leb_le; reflexivity); intros [A B]; apply N.leb_le in A, B; vm_compute in A, B; discriminate. Qed.
+Print Assumptions hrp_wf_example.
